@@ -238,7 +238,13 @@ func TestVerifC11Proxy(t *testing.T) {
 		run(cs, true)
 	} else {
 		r := vNewRand(vSeed() ^ 0x5eed)
-		per := vN(3, 30)
+		per := 3
+		if vTier() == "thorough" {
+			per = 30
+		}
+		if n := vN(0, 0); n > 0 {
+			per = 10
+		}
 		for _, e := range adv {
 			for v := e.MinVersion; v <= e.MaxVersion && v >= 0; v++ {
 				for k := 0; k < per; k++ {
